@@ -332,10 +332,16 @@ def r1(ctx):
         fi = ctx.func(ICAL + "." + fname)
         mod_funcs = fi.module.functions
 
+        _mc = {c.name: c for c in fi.module.classes.values()} if isinstance(fi.module.classes, dict) else {c.name: c for c in fi.module.classes}
+
         def resolver(d, _m=mod_funcs):
             # a module-level helper of xandikos.icalendar called by its bare name (interpreted like the caller)
             f_ = _m.get(d)
-            return f_.node if f_ is not None and f_.cls is None and isinstance(f_.node, ast.FunctionDef) else None
+            if f_ is not None and f_.cls is None and isinstance(f_.node, ast.FunctionDef):
+                return f_.node
+            # ... or a helper class of that module (an object bundling the bounds, with one method per component)
+            c_ = _mc.get(d)
+            return c_.node if c_ is not None else None
 
         for row in rows:
             free = [p for p in universe if row.present.get(p) is None]
